@@ -79,6 +79,10 @@ def tokenize(pat, syn):
                 j += 1
             out.append(("set", neg, tuple(items)))
             i = j + 1
+        elif c == "^" and i == 1:
+            out.append(("bol",))            # an anchor at the very start of the pattern (elsewhere: outside the model)
+        elif c == "$" and i == len(pat):
+            out.append(("eol",))            # ... and at its very end
         elif c in "^${}":
             raise OutsideModel(c)
         else:
@@ -153,6 +157,8 @@ def ends(node, text, i, fold, caps=()):
     """generator of (end position, captures) of matches of node at i, in oniguruma's priority order; captures = ((group, start, end), ...)
     fold: True / False, or "dotall" / "fold+dotall" when '.' also matches a newline (ONIG_OPTION_MULTILINE, part of the POSIX syntaxes' options)"""
     dotall = isinstance(fold, str) and "dotall" in fold
+    # ONIG_OPTION_SINGLELINE (part of the POSIX syntaxes' options): '^' is \\A and '$' is \\Z - the end of the text or just before one final newline
+    _SINGLE[0] = isinstance(fold, str) and "single" in fold
     if isinstance(fold, str):
         fold_ = fold.startswith("fold")
     else:
@@ -160,8 +166,19 @@ def ends(node, text, i, fold, caps=()):
     return _ends(node, text, i, fold_, dotall, caps)
 
 
+_SINGLE = [False]
+
+
 def _ends(node, text, i, fold, dotall, caps):
     k = node[0]
+    if k == "bol":
+        if i == 0 or (not _SINGLE[0] and text[i - 1] == "\n"):
+            yield i, caps
+        return
+    if k == "eol":
+        if i == len(text) or (text[i] == "\n" and (not _SINGLE[0] or i == len(text) - 1)):
+            yield i, caps
+        return
     if k == "lit":
         if i < len(text) and (text[i] == node[1] or (fold and text[i].lower() == node[1].lower())):
             yield i + 1, caps
